@@ -6,6 +6,7 @@
 #include "plan.h"
 
 #include <algorithm>
+#include <errno.h>
 
 namespace sim {
 
@@ -1049,17 +1050,30 @@ void gen_c19(Gen &g) {
       path = "/sim/dir";
     else
       path = "/sim/in" + std::to_string(r.below((uint64_t)nfiles)) + ".asm";
-    if (r.chance(1, 3)) {
-      Op a = g.mk(OP_COUNT_FILE, 0);
-      a.path = path;
+    Op a = g.mk(r.chance(1, 3) ? OP_COUNT_FILE : OP_ASM_FILE, 0);
+    a.path = path;
+    if (a.kind == OP_COUNT_FILE)
       a.c = r.chance(1, 8) ? r.range(-1, 1) : r.range(2, 64);
-      t.ops.push_back(a);
-    } else {
-      Op a = g.mk(OP_ASM_FILE, 0);
-      a.path = path;
+    else
       a.alias = r.chance(1, 8);
-      t.ops.push_back(a);
+    if (r.chance(1, 4)) {
+      // legal behaviour of read(2) that a loader has to cope with: short counts and interruptions (not refusals)
+      int k = 1 + (int)r.below(3);
+      for (int q = 0; q < k; q++) {
+        EnvAns e;
+        e.call = K_READ;
+        e.nth = (int)r.below(4);
+        if (r.coin()) {
+          e.ans = ANS_SHORT;
+          e.arg = (long)r.range(1, 5000);
+        } else {
+          e.ans = ANS_FAIL;
+          e.err = EINTR;
+        }
+        a.env.push_back(e);
+      }
     }
+    t.ops.push_back(a);
     if (r.chance(1, 2)) {
       // binary output at an explicitly chosen offset
       Op so = g.mk(OP_OFFSET, 0);
